@@ -199,6 +199,7 @@ type sizeStats struct {
 	over4Burst, over4Stream, over8     bool // encoded size above 4 MiB before / after the stream's sync_response; above 8 MiB
 	manyBurst, manyStream              bool // >= 1000 updates in one response, before / after the stream's sync_response
 	over4Atomic, over4WhileObserved    bool
+	over16Atomic                       bool
 	bigString, bigBytes, resentOnAgain bool
 	bigLegacy                          bool // a value of >= 512 KiB in the deprecated Update.value field
 }
@@ -266,6 +267,7 @@ func (g *guarded) measure(r *pb.SubscribeResponse) {
 		}
 		z.over8 = z.over8 || size > 8*mib
 		z.over4Atomic = z.over4Atomic || n.GetAtomic()
+		z.over16Atomic = z.over16Atomic || (n.GetAtomic() && size > 16*mib)
 		z.resentOnAgain = z.resentOnAgain || g.again
 		for _, o := range h.obs {
 			if o.synced && !o.ended && (o.target == "*" || o.target == g.p.name) {
@@ -748,6 +750,7 @@ func (h *hub) sizes() sizeStats {
 		z.manyBurst = z.manyBurst || q.manyBurst
 		z.manyStream = z.manyStream || q.manyStream
 		z.over4Atomic = z.over4Atomic || q.over4Atomic
+		z.over16Atomic = z.over16Atomic || q.over16Atomic
 		z.over4WhileObserved = z.over4WhileObserved || q.over4WhileObserved
 		z.bigString = z.bigString || q.bigString
 		z.bigBytes = z.bigBytes || q.bigBytes
